@@ -1,9 +1,11 @@
 package main
 
 import (
+	"bytes"
 	"fmt"
 	"go/ast"
 	"go/constant"
+	"go/printer"
 	"go/token"
 	"sort"
 	"strings"
@@ -19,6 +21,7 @@ func init() {
 		"pkg/controllers/node/termination",
 		"pkg/controllers/nodeclaim/lifecycle",
 		"pkg/utils/pod",
+		"pkg/cloudprovider",
 	}, func(g *gen) {
 		const term = "pkg/controllers/node/termination"
 		const life = "pkg/controllers/nodeclaim/lifecycle"
@@ -40,6 +43,10 @@ func init() {
 			[]string{"c.finalize", "controllerutil.AddFinalizer", "kubeClient.Patch", "reconciler.Reconcile", "Status().Patch"})
 		g.callSeq("Finalize", term, "Controller.awaitInstanceTermination", "instanceStageCalls",
 			[]string{"cloudProvider.Delete", "cloudprovider.IgnoreNodeClaimNotFoundError", "SetTrue", "cloudprovider.IsNodeClaimNotFoundError"})
+		c09ReturnExprs(g, "pkg/cloudprovider", "IsNodeClaimNotFoundError", "isNotFoundReturns",
+			"the return expressions of `cloudprovider.IsNodeClaimNotFoundError`, in source order: the only way for a provider error to say \"the instance is gone\" is to be (or wrap) a *NodeClaimNotFoundError - no other error kind (a Kubernetes API NotFound for some other object, a message) counts")
+		c09ReturnExprs(g, "pkg/cloudprovider", "IgnoreNodeClaimNotFoundError", "ignoreNotFoundReturns",
+			"the return expressions of `cloudprovider.IgnoreNodeClaimNotFoundError`, in source order")
 		c09ObjectReads(g, term, []string{"filterVolumeAttachments", "Controller.pendingVolumeAttachments", "Controller.awaitVolumeDetachment"},
 			"VolumeAttachment", "vaFilterReads",
 			"what the volume-detachment stage reads of a single VolumeAttachment (selector paths rooted at a value of type *storagev1.VolumeAttachment, sorted): an attachment blocks or not by these alone - in particular not by its deletionTimestamp, finalizers or status")
@@ -255,6 +262,44 @@ func c09ObjectReads(g *gen, pkgPath string, fns []string, typeName, lean, doc st
 	b := g.out("Finalize")
 	fmt.Fprintf(b, "/-- %s (%s: %s, %s) -/\ndef %s : List String := [", doc, pkgPath, strings.Join(fns, ", "), where, lean)
 	for i, s := range paths {
+		if i > 0 {
+			b.WriteString(", ")
+		}
+		b.WriteString(leanStr(s))
+	}
+	b.WriteString("]\n\n")
+}
+
+// c09ReturnExprs: the expressions returned by fn, printed in canonical gofmt form, in source order.
+func c09ReturnExprs(g *gen, pkgPath, fn, lean, doc string) {
+	p, fd := g.findFunc(pkgPath, fn)
+	if fd == nil {
+		return
+	}
+	var exprs []string
+	ast.Inspect(fd.Body, func(n ast.Node) bool {
+		if _, ok := n.(*ast.FuncLit); ok {
+			return false
+		}
+		rs, ok := n.(*ast.ReturnStmt)
+		if !ok {
+			return true
+		}
+		var parts []string
+		for _, e := range rs.Results {
+			var buf bytes.Buffer
+			if err := printer.Fprint(&buf, p.Fset, e); err != nil {
+				g.errf("%s.%s: cannot print a return expression: %v", pkgPath, fn, err)
+				return false
+			}
+			parts = append(parts, strings.Join(strings.Fields(buf.String()), " "))
+		}
+		exprs = append(exprs, strings.Join(parts, ", "))
+		return true
+	})
+	b := g.out("Finalize")
+	fmt.Fprintf(b, "/-- %s (%s.%s, %s) -/\ndef %s : List String := [", doc, pkgPath, fn, g.pos(fd.Pos()), lean)
+	for i, s := range exprs {
 		if i > 0 {
 			b.WriteString(", ")
 		}
